@@ -262,3 +262,171 @@ func TestC30Load(t *testing.T) {
 		st.Case(fmt.Sprintf("%d/%s/%d", seed, mut, pos), mut != "intact", fmt.Sprintf("%s pos=%d consistent=%v dials=%d err=%v", mut, pos, consistent, dials, runErr), mut, fmt.Sprintf("consistent=%v", consistent))
 	})
 }
+
+// gatedStorage parks its caller at the start of every LoadSession and
+// StoreSession until the test releases it: the harness owns the storage, so it
+// owns the points at which a save can be overtaken by other client activity.
+type gatedStorage struct {
+	recStorage
+	cur    *flight // the only goroutine that is running (all others are parked)
+	events chan string
+}
+
+type flight struct {
+	n      notif
+	at     string // "load", "store", "done"
+	resume chan struct{}
+	err    error
+}
+
+func (s *gatedStorage) gate(op string) {
+	f := s.cur
+	if f == nil {
+		return
+	}
+	f.at = op
+	s.events <- op
+	<-f.resume
+}
+
+func (s *gatedStorage) LoadSession(ctx context.Context) ([]byte, error) {
+	s.gate("load")
+	return s.recStorage.LoadSession(ctx)
+}
+
+func (s *gatedStorage) StoreSession(ctx context.Context, d []byte) error {
+	s.gate("store")
+	return s.recStorage.StoreSession(ctx, d)
+}
+
+// C30 (c): the same histories with the notifications in flight: a notification
+// is a goroutine that the schedule stops before each storage access, so primary
+// changes and other notifications land between the in-memory update and the
+// load, and between the load and the save. At every step the stored record is
+// (DC, key, salt) of one notification delivered by a connection to that DC.
+func TestC30Concurrent(t *testing.T) {
+	st := pbt.NewStats("TestC30Concurrent")
+	defer st.Flush()
+	rapid.Check(t, func(t *rapid.T) {
+		store := &gatedStorage{events: make(chan string)}
+		startDC := rapid.SampledFrom([]int{1, 2, 4}).Draw(t, "startDC")
+		pfs := rapid.Bool().Draw(t, "pfs")
+		c := telegram.NewClient(1, "hash", telegram.Options{DC: startDC, SessionStorage: store, EnablePFS: pfs, NoUpdates: true})
+		var delivered []notif
+		var inflight []*flight
+		var hist []string
+		classes := map[string]bool{}
+		seed := uint64(0)
+		// run lets f proceed to its next storage access or to its end
+		run := func(f *flight) {
+			store.cur = f
+			f.resume <- struct{}{}
+			<-store.events
+			store.cur = nil
+			if f.at == "done" {
+				for i, g := range inflight {
+					if g == f {
+						inflight = append(inflight[:i], inflight[i+1:]...)
+						break
+					}
+				}
+				if f.err != nil {
+					t.Fatalf("onSession: %v", f.err)
+				}
+			}
+		}
+		check := func() {
+			raw, err := store.recStorage.LoadSession(context.Background())
+			if err != nil {
+				return
+			}
+			var v struct {
+				Data session.Data
+			}
+			if err := json.Unmarshal(raw, &v); err != nil {
+				t.Fatalf("stored session does not parse: %v", err)
+			}
+			for _, n := range delivered {
+				want := n.key
+				if !n.perm.Zero() {
+					want = n.perm
+				}
+				if v.Data.DC == n.dc && string(v.Data.AuthKey) == string(want.Value[:]) && string(v.Data.AuthKeyID) == string(want.ID[:]) && v.Data.Salt == n.salt {
+					return
+				}
+			}
+			t.Fatalf("C30 violated: stored session (dc=%d key=%x.. salt=%d) is not the (DC, key, salt) of any notification delivered by a connection to that DC\nhistory: %s", v.Data.DC, v.Data.AuthKey[:min(4, len(v.Data.AuthKey))], v.Data.Salt, strings.Join(hist, " "))
+		}
+		t.Cleanup(func() {
+			for len(inflight) > 0 {
+				run(inflight[0])
+			}
+		})
+		t.Repeat(map[string]func(*rapid.T){
+			"deliver": func(t *rapid.T) {
+				if len(inflight) >= 3 {
+					t.Skip("three notifications in flight")
+				}
+				seed++
+				dc := c.VerifPrimaryDC()
+				if rapid.IntRange(0, 3).Draw(t, "fromOther") == 0 {
+					dc = rapid.SampledFrom([]int{1, 2, 3, 4, 5}).Draw(t, "dc")
+				}
+				n := notif{dc: dc, key: keyFrom(seed), salt: int64(seed * 7)}
+				if pfs {
+					n.perm = keyFrom(seed + 1000)
+				}
+				delivered = append(delivered, n)
+				f := &flight{n: n, resume: make(chan struct{})}
+				inflight = append(inflight, f)
+				go func() {
+					<-f.resume
+					f.err = c.VerifOnSession(tg.Config{ThisDC: n.dc}, mtproto.Session{ID: int64(n.salt), Key: n.key, PermKey: n.perm, Salt: n.salt})
+					f.at = "done"
+					store.events <- "done"
+				}()
+				hist = append(hist, fmt.Sprintf("deliver#%d(dc%d,primary=%d)", seed, dc, c.VerifPrimaryDC()))
+				run(f)
+				if len(inflight) > 1 {
+					classes["overlapping-notifications"] = true
+				}
+			},
+			"step": func(t *rapid.T) {
+				if len(inflight) == 0 {
+					t.Skip("nothing in flight")
+				}
+				f := inflight[rapid.IntRange(0, len(inflight)-1).Draw(t, "which")]
+				hist = append(hist, fmt.Sprintf("step#%d(from %s)", f.n.salt/7, f.at))
+				run(f)
+			},
+			"migrate": func(t *rapid.T) {
+				dc := rapid.SampledFrom([]int{1, 2, 3, 4, 5}).Draw(t, "dc")
+				if dc == c.VerifPrimaryDC() {
+					t.Skip("already there")
+				}
+				old := c.VerifPrimaryDC()
+				c.VerifMigrate(dc)
+				hist = append(hist, fmt.Sprintf("migrate(%d->%d)", old, dc))
+				for _, f := range inflight {
+					if f.n.dc == old {
+						classes["migrate-during-save"] = true
+					}
+				}
+			},
+			"": func(t *rapid.T) { check() },
+		})
+		for len(inflight) > 0 {
+			run(inflight[0])
+		}
+		check()
+		key := strings.Join(hist, " ")
+		var cl []string
+		for _, k := range []string{"overlapping-notifications", "migrate-during-save"} {
+			if classes[k] {
+				cl = append(cl, k)
+			}
+		}
+		cl = append(cl, fmt.Sprintf("pfs=%v", pfs))
+		st.Case(key, classes["migrate-during-save"] || classes["overlapping-notifications"], short(key, 300), cl...)
+	})
+}
